@@ -1,0 +1,81 @@
+//go:build verif
+
+package hooks
+
+// Machine-checked contracts for /verif (govc). Comment-only: compiled only with -tags verif, adds no code.
+
+// C20 (sub-claims, the hook constructors): opening a pair launches the start command exactly once when it is
+// configured and never otherwise, with that command line; the returned closer stops exactly that command (when it
+// was started) BEFORE it launches the stop command, launches the stop command exactly once when it is configured
+// and never otherwise, with that command line, and never launches the start command again.
+
+//@ func OnAvailable
+//@   property C20
+//@   safety -all
+//@   assert-call Cmd.Start: params.Conf.RunOnAvailable != "" && called(Cmd.Start) == 1 && c.Cmdstr == params.Conf.RunOnAvailable
+//@   ensures [start-command-launched-iff-configured] called(Cmd.Start) == b2i(params.Conf.RunOnAvailable != "")
+
+//@ func OnAvailable$2
+//@   property C20
+//@   safety -all
+//@   assert-call Cmd.Close: c == onAvailableCmd && called(Cmd.Close) == 1 && called(Cmd.Start) == 0
+//@   assert-call Cmd.Start: params.Conf.RunOnUnavailable != "" && called(Cmd.Start) == 1 && c.Cmdstr == params.Conf.RunOnUnavailable && c != onAvailableCmd
+//@   ensures [start-command-stopped-iff-started] called(Cmd.Close) == b2i(onAvailableCmd != nil)
+//@   ensures [stop-command-launched-iff-configured] called(Cmd.Start) == b2i(params.Conf.RunOnUnavailable != "")
+
+//@ func OnOnline
+//@   property C20
+//@   safety -all
+//@   assert-call Cmd.Start: params.Conf.RunOnOnline != "" && called(Cmd.Start) == 1 && c.Cmdstr == params.Conf.RunOnOnline
+//@   ensures [start-command-launched-iff-configured] called(Cmd.Start) == b2i(params.Conf.RunOnOnline != "")
+
+//@ func OnOnline$2
+//@   property C20
+//@   safety -all
+//@   assert-call Cmd.Close: c == old(onOnlineCmd) && called(Cmd.Close) == 1 && called(Cmd.Start) == 0
+//@   assert-call Cmd.Start: params.Conf.RunOnOffline != "" && called(Cmd.Start) == 1 && c.Cmdstr == params.Conf.RunOnOffline && c != old(onOnlineCmd)
+//@   ensures [start-command-stopped-iff-started] called(Cmd.Close) == b2i(old(onOnlineCmd) != nil)
+//@   ensures [closer-forgets-the-start-command] onOnlineCmd == nil
+//@   ensures [stop-command-launched-iff-configured] called(Cmd.Start) == b2i(params.Conf.RunOnOffline != "")
+
+//@ func OnDemand
+//@   property C20
+//@   safety -all
+//@   assert-call Cmd.Start: params.Conf.RunOnDemand != "" && called(Cmd.Start) == 1 && c.Cmdstr == params.Conf.RunOnDemand
+//@   ensures [start-command-launched-iff-configured] called(Cmd.Start) == b2i(params.Conf.RunOnDemand != "")
+
+//@ func OnDemand$2
+//@   property C20
+//@   safety -all
+//@   assert-call Cmd.Close: c == old(onDemandCmd) && called(Cmd.Close) == 1 && called(Cmd.Start) == 0
+//@   assert-call Cmd.Start: params.Conf.RunOnUnDemand != "" && called(Cmd.Start) == 1 && c.Cmdstr == params.Conf.RunOnUnDemand && c != old(onDemandCmd)
+//@   ensures [start-command-stopped-iff-started] called(Cmd.Close) == b2i(old(onDemandCmd) != nil)
+//@   ensures [stop-command-launched-iff-configured] called(Cmd.Start) == b2i(params.Conf.RunOnUnDemand != "")
+
+//@ func OnRead
+//@   property C20
+//@   safety -all
+//@   assert-call Cmd.Start: params.Conf.RunOnRead != "" && called(Cmd.Start) == 1 && c.Cmdstr == params.Conf.RunOnRead
+//@   ensures [start-command-launched-iff-configured] called(Cmd.Start) == b2i(params.Conf.RunOnRead != "")
+
+//@ func OnRead$2
+//@   property C20
+//@   safety -all
+//@   assert-call Cmd.Close: c == old(onReadCmd) && called(Cmd.Close) == 1 && called(Cmd.Start) == 0
+//@   assert-call Cmd.Start: params.Conf.RunOnUnread != "" && called(Cmd.Start) == 1 && c.Cmdstr == params.Conf.RunOnUnread && c != old(onReadCmd)
+//@   ensures [start-command-stopped-iff-started] called(Cmd.Close) == b2i(old(onReadCmd) != nil)
+//@   ensures [stop-command-launched-iff-configured] called(Cmd.Start) == b2i(params.Conf.RunOnUnread != "")
+
+//@ func OnConnect
+//@   property C20
+//@   safety -all
+//@   assert-call Cmd.Start: params.RunOnConnect != "" && called(Cmd.Start) == 1 && c.Cmdstr == params.RunOnConnect
+//@   ensures [start-command-launched-iff-configured] called(Cmd.Start) == b2i(params.RunOnConnect != "")
+
+//@ func OnConnect$2
+//@   property C20
+//@   safety -all
+//@   assert-call Cmd.Close: c == old(onConnectCmd) && called(Cmd.Close) == 1 && called(Cmd.Start) == 0
+//@   assert-call Cmd.Start: params.RunOnDisconnect != "" && called(Cmd.Start) == 1 && c.Cmdstr == params.RunOnDisconnect && c != old(onConnectCmd)
+//@   ensures [start-command-stopped-iff-started] called(Cmd.Close) == b2i(old(onConnectCmd) != nil)
+//@   ensures [stop-command-launched-iff-configured] called(Cmd.Start) == b2i(params.RunOnDisconnect != "")
